@@ -330,6 +330,9 @@ class Lab:
                     if self.user_mode:
                         return _orig(*a, **k)
                     rec = [_side, _name, _summ(a)]
+                    if _name in ("upload", "rename", "delete") and a:
+                        obj = self.p[_side]._mock_fs.get(a[0])
+                        rec[2] = rec[2] + ["@" + str(obj.path if obj is not None else None)]
                     self.calls.append(rec)
                     r = _orig(*a, **k)
                     rec.append("ok")
